@@ -482,6 +482,12 @@ def batch_job(job):
             except Exception:
                 v["nontrivial"] = False
             out.append((k, v))
+        only_in_batch = [k for k, v in out if v.get("batch_status") and v["status"] not in BAD]
+        if only_in_batch and not any(v["status"] in BAD for _, v in out):
+            # nothing in this file fails alone, so nothing explains the failures inside it
+            return ("harness", "cases %s fail inside batch %s but none of its cases fails alone "
+                               "(batching artefact or state leaking between cases)"
+                    % (only_in_batch[:5], name))
         return ("ok", out)
     except HarnessError as e:
         return ("harness", str(e))
@@ -512,6 +518,9 @@ def explore(ck):
     cfg = {"dir": ck.scratch(), "rel": rel, "asan": asan, "keep": ck.keep}
     if ck.replay:
         return replay(ck, cfg)
+    head = tools.run(["git", "-C", rel["repo"], "rev-parse", "--short", "HEAD"]).out.strip()
+    dirty = tools.run(["git", "-C", rel["repo"], "status", "--porcelain", "-uno"]).out.strip()
+    ck.extra["tree"] = {"path": rel["repo"], "head": head, "modified_files": dirty.splitlines()}
 
     thorough = ck.tier == "thorough"
     completed = {}
